@@ -239,6 +239,11 @@ impl Ldap {
 //@ attr #[verifier::exec_allows_no_decreases_clause]
 //@ insert after "let mut re_vec: Vec<ResultEntry> = vec![];"
         let ghost all = stream.items@;
+        proof {
+            // the stream that is read is the one started for exactly this search, through the EntriesOnly adapter
+            assert(stream.started@ matches Some(st) && st.base == base@ && st.scope == scope && st.filter == filter@ && st.attrs == attrs); //# C02+C10.search_starts_the_search_it_was_asked_for
+            assert(stream.adapters@ == seq![AdapterBox { g: 1 }]); //# C10.search_reads_through_the_entries_only_adapter
+        }
 //@ loop 1
             invariant
                 re_vec@ + stream.items@ == all, //# C10.inv_collected_prefix_plus_remaining_is_everything
